@@ -211,6 +211,8 @@ def s4(ctx, rep):
              and isinstance(n.ast.targets[0], ast.Subscript) and U(n.ast.targets[0].value) == kw}
     incs = {n.id for n in cfg.nodes if n.kind == "stmt" and isinstance(n.ast, ast.AugAssign) and U(n.ast.target) == "self.iter"
             and isinstance(n.ast.op, ast.Add) and isinstance(n.ast.value, ast.Constant) and n.ast.value.value == 1}
+    incs |= {n.id for n in cfg.nodes if n.kind == "stmt" and isinstance(n.ast, ast.Assign) and U(n.ast.targets[0]) == "self.iter"
+             and U(n.ast.value).replace(" ", "") in ("self.iter+1", "1+self.iter")}
     other = {n.id for n in cfg.nodes if n.kind == "stmt" and isinstance(n.ast, (ast.Assign, ast.AugAssign)) and
              any(U(t) == "self.iter" for t in (n.ast.targets if isinstance(n.ast, ast.Assign) else [n.ast.target]))} - incs
     rl = ctx.nodes(f, ctx.sel_call(func=P.func("syne_tune.report._report_logger")), "may", 0)
